@@ -232,6 +232,81 @@ def domain_total(repo, rep):
     rep.floor("argument classes examined for refusals inside the domain", n, 9)
 
 
+def anomaly_fold(rep, site, Er):
+    """R-FOLD: Kepler's equation is solved for the mean anomaly folded into [0, pi]; the returned E must be
+    +e0(M mod 2pi) for M mod 2pi in (0, pi) and -e0(2pi - M mod 2pi) for M mod 2pi in (pi, 2pi), for either sign of M and any
+    number of whole turns.  The part of E outside the solver loop (the sign factor) and the anomaly handed to the loop are
+    piecewise linear in M - built from abs, floor, mod, copysign, comparisons and linear arithmetic only, which is verified
+    first - with breakpoints at the multiples of pi, so two evaluation points per piece decide them on every piece: here the
+    pieces of four consecutive turns on both sides of zero."""
+    import math
+    from ..poly import eval_numeric, NotAlgebraic
+    rep.rule("R-FOLD", "sign factor of E and the anomaly handed to the solver, decided on every linear piece of the mean anomaly "
+                       "(two points per half turn, four turns, both signs)")
+    if Er is None:
+        rep.inconcl("R-FOLD", site, "the eccentric anomaly is not returned as an Angle built from radians")
+        return
+    loops = list({x for x in T.walk(Er) if x[0] == "loopout" and x[1] == "e0"} or {x for x in T.walk(Er) if x[0] == "loopout"})
+    if len(loops) != 1:
+        rep.inconcl("R-FOLD", site, "expected one solver loop in the returned E, found %d" % len(loops))
+        return
+    L = loops[0]
+    F = T.subst(Er, {L: T.sym("LOOP")})
+    body = dict(L[2][4])
+    cands = set()
+
+    def maximal(t):
+        if not isinstance(t, tuple) or not t or not isinstance(t[0], str):
+            return
+        has_m = any(x == T.sym("MA") for x in T.walk(t))
+        has_l = any(x[0] in ("lv", "lt") for x in T.walk(t))
+        if has_m and not has_l:
+            cands.add(t)
+            return
+        for x in t[1:]:
+            if isinstance(x, tuple):
+                maximal(x)
+    for _n, bt in L[2][4]:
+        maximal(bt)
+    if not cands:
+        rep.inconcl("R-FOLD", site, "the mean anomaly does not reach the solver loop in a recognisable way")
+        return
+    ok_calls = {"abs", "floor", "int", "copysign", "mod", "fmod", "float"}
+    for t_ in list(cands) + [F]:
+        for x in T.walk(t_):
+            if (x[0] == "call" and x[1] not in ok_calls) or x[0] in ("loopout", "idx", "attr", "opaque", "listcomp") \
+                    or (x[0] == "sym" and x[1] not in ("MA", "pi", "d2r", "LOOP")):
+                rep.inconcl("R-FOLD", site, "the anomaly reduction is not piecewise linear in M (found %s)" % T.show(x)[:50])
+                return
+    bad = None
+    n = 0
+    for kturn in (-2, -1, 0, 1):
+        for base in (100.0, 130.0, 250.0, 290.0):
+            Mdeg = base + 360.0 * kturn
+            env = {"MA": Mdeg, "LOOP": 1.0}
+            r = math.radians(base)
+            want_m = r if base < 180 else 2 * math.pi - r
+            want_f = 1.0 if base < 180 else -1.0
+            try:
+                f = float(eval_numeric(F, env))
+                ms = [float(eval_numeric(c_, env)) for c_ in cands]
+            except (NotAlgebraic, KeyError, ZeroDivisionError, TypeError) as e:
+                rep.inconcl("R-FOLD", site, "the anomaly reduction could not be evaluated: %s" % e)
+                return
+            n += 1
+            if abs(f - want_f) > 1e-9 and bad is None:
+                bad = "M = %g deg (= %g deg mod 360): E is returned as %+g * e0, the fold needs %+g * e0" % (Mdeg, base, f, want_f)
+            for m_ in ms:
+                if abs(m_ - want_m) > 1e-7 and bad is None:
+                    bad = "M = %g deg (= %g deg mod 360): the solver is given %.6f rad, the folded anomaly is %.6f rad" % (Mdeg, base, m_, want_m)
+    rep.floor("pieces of the mean anomaly evaluated", n, 16)
+    if bad:
+        rep.violation("R-FOLD", site, "anomaly-reduction", "reduce M modulo 2 pi, mirror when > pi, E = +-e0: " + bad, obligation=True)
+    else:
+        rep.ok("R-FOLD", site + ":reduction", "M reduced modulo 2 pi and folded to [0, pi]; E = +e0 on the first half turn, -e0 on the second, for both signs of M "
+                                                "and any number of turns (%d pieces)" % n, obligation=True)
+
+
 def run(repo, rep, tier):
     rep.decided = ["D1 true-anomaly relation and its reciprocal", "D2 vis-viva identities", "D3 k == (1 + cos i)/2",
                    "D4 node-passage relations (elliptic and parabolic)", "D5 sign bookkeeping of the anomaly reduction; radians"]
@@ -270,45 +345,8 @@ def run(repo, rep, tier):
             rep.ok("R-E4-ID", site, "v == 2*atan(sqrt((1+e)/(1-e))*tan(E/2)) of the returned E", obligation=True)
         else:
             rep.violation("R-E4-ID", site, "true-anomaly", "true anomaly is not 2*atan(sqrt((1+e)/(1-e))*tan(E/2)) of the returned eccentric anomaly", obligation=True)
-        # D5: E = e0 * f with f = phi(m' > pi ? -1 : 1)
-        fs = [x for x in T.walk(Er)] if Er is not None else []
-        signs = [x for x in fs if x[0] == "phi" and x[2] == T.num(-1) and x[3] == T.num(1) and x[1][0] == "cmp" and x[1][1] in ("Gt", "GtE") and x[1][3] == T.PI]
-        ok5 = False
-        unknown5 = False
-        mred = None
-        if len(signs) == 1:
-            c, rest = T.split_coeff(Er)
-            fac = rest[1:] if rest[0] == "mul" else (rest,)
-            ok5 = signs[0] in fac and c == 1 and any(f[0] == "loopout" for f in fac)
-            mred = signs[0][1][2]
-        elif Er is not None and Er[0] == "phi" and Er[1][0] == "cmp" and Er[1][1] in ("Gt", "GtE") and Er[1][3] == T.PI:
-            # the same bookkeeping written as `if mirrored: e0 = -e0`:  E = (m' > pi) ? -e0 : e0
-            try:
-                ok5 = Algebra(atomize=True).equal(Er[2], T.neg(Er[3])) and any(x[0] == "loopout" for x in T.walk(Er[3]))
-            except Exception:
-                ok5 = False
-            mred = Er[1][2]
-        elif Er is not None and not signs:
-            unknown5 = True
-        if mred is not None:
-            # the reduced anomaly compared with pi: phi(m'' < 0 ? m'' + 2pi : m''), m'' = 2*pi*sign(m)*frac(|m|/(2pi))
-            m = T.mul(T.sym("MA"), D2R)
-            frac = T.sub(T.div(T.call("abs", m), T.mul(T.num(2), T.PI)), T.call("floor", T.div(T.call("abs", m), T.mul(T.num(2), T.PI))))
-            m2 = T.mul(frac, T.num(2), T.PI, T.call("copysign", T.num(1), m))
-            ok_red = False
-            if mred[0] == "phi" and mred[1][0] == "cmp" and mred[1][1] in ("Lt", "LtE") and mred[1][3] == T.ZERO:
-                try:
-                    a2 = Algebra()
-                    ok_red = a2.equal(mred[3], m2) and a2.equal(mred[2], T.add(m2, T.mul(T.num(2), T.PI))) and a2.equal(mred[1][2], m2)
-                except Exception:
-                    ok_red = False
-            ok5 = ok5 and ok_red
-        if unknown5:
-            rep.inconcl("R-E4-ID", site, "the sign bookkeeping of the anomaly reduction (mirror when the reduced M > pi) is not recognised in the returned E")
-        elif ok5:
-            rep.ok("R-E4-ID", site + ":reduction", "M reduced to [0, 2pi) keeping its sign of turn; result E = e0 * f with f = -1 exactly when the reduced M > pi (mirror branch)", obligation=True)
-        else:
-            rep.violation("R-E4-ID", site, "anomaly-reduction", "anomaly reduction / sign bookkeeping differs from: reduce M modulo 2pi, mirror when > pi, E = e0*f", obligation=True)
+        # D5: reduction of the mean anomaly and sign bookkeeping
+        anomaly_fold(rep, site, Er)
     # ---- D2 vis-viva
     for f_ in ("velocity", "velocity_perihelion", "velocity_aphelion"):
         rep.fn(MOD, f_)
